@@ -202,7 +202,7 @@ def render(prog, modname):
     L = ["from twosigma.memento import memento_function",
          "from twosigma.memento.exception import NonMemoizedException",
          "from twosigma.memento.resource import ResourceHandle",
-         "from twosigma.memento.resource_function import ResourceFunction",
+         "from twosigma.memento.resource_function import resource_function",
          "import progs",
          "import shutil",
          "import configparser",
@@ -214,7 +214,9 @@ def render(prog, modname):
          "class NmSub(NonMemoizedException):",
          "    pass",
          "",
-         "vres = ResourceFunction(lambda url: ResourceHandle('vres', url, '1'))",
+         "@resource_function(resource_type='vres')        # (the documented way: the type is registered with the library)",
+         "def vres(url):",
+         "    return ResourceHandle('vres', url, '1')",
          ""]
     for f, d in sorted(prog["fns"].items()):
         ver = ', version="e%d"' % f if d["explicit"] else ""
